@@ -48,7 +48,7 @@ def configs(tier):
     # C04 (legacy clause): a Liquid taker's stored record becomes a protocol-6 record while the node is down (in every reachable
     # state, also after a crash with the claim payment in flight); the restarted node only follows an existing payment
     out.append(rec("in_receiver_lbtc_legacy", "lbtc", ["swap_in_request"], 6 if deep else 5, crashes=1, side="taker", legacy=True, blocks=None if deep else "{2}"))
-    out.append(rec("out_sender_lbtc_legacy", "lbtc", ["swapout"], 7 if deep else 4, crashes=1 if deep else 0, side="taker", legacy=True, blocks=None if deep else "{2}"))
+    out.append(rec("out_sender_lbtc_legacy", "lbtc", ["swapout"], 6 if deep else 4, crashes=1 if deep else 0, side="taker", legacy=True, blocks=None if deep else "{2}"))
     # C11 / C26: the operator switches swaps off / on, allowlists, marks the peer suspicious at run time (allowlist in force), restarts
     out.append(rec("all_btc_policy", "btc", ["swapout", "swapin", "swap_out_request", "swap_in_request"], 5 if deep else 4, swaps=2, blocks="{1}", policy=True, acceptall=False))
     out.append(rec("mixed_btc_adv", "btc", ["swapout", "swap_in_request", "swapin", "swap_out_request"], 4 if deep else 3, swaps=2,
